@@ -531,3 +531,18 @@ Theorem judge_text_is_printed_ast pre post key keys ls :
   C09_Model.tprint (C09_Model.tflat_all (pre ++ (key, keys, ls) :: post)) =
   print (a_flat_all (map to_ablock pre ++ mkb key keys ls :: map to_ablock post)).
 Proof. rewrite tprint_is_print, tflat_all_is_a_flat_all, map_app. reflexivity. Qed.
+
+(* the configuration of C09_text_reorder_invariant_nonvacuous: a directive named through an
+   environment variable, a sub-block with a multi-line token, blocks in front and behind *)
+Local Open Scope string_scope.
+Module TextExample.
+Definition env := [(bs "D", bs "header")].
+Definition t (s : string) (nl : bool) : ltok := (bs s, nl).
+Definition l1 : aline := (t "{$D}" false, [t "/" false; t "X-A" false; t "1 2" true]).
+Definition l2 : aline := (t "root" false, [t "/x" true]).
+Definition l3 : aline := (t "header" false, [t "/" false; t "{" true; t "X-B" false; ([50; 10; 51], true); t "}" true]).
+Definition pre := [mkb (t ":80" false) [] [(t "gzip" true, [])]].
+Definition post := [mkb (t "b.com" false) [] [(t "root" false, [t "/y" true])]].
+Definition cfg := (pre ++ mkb (t "a.com," false) [t "c.com" false] [l1; l2; l3] :: post)%list.
+Definition cfg' := (pre ++ mkb (t "a.com," false) [t "c.com" false] [l2; l1; l3] :: post)%list.
+End TextExample.
